@@ -84,6 +84,14 @@ def gen(rng, tier):
     from . import c09 as C09
     for c in C09.pattern_history_cases():
         yield {"segs": c["query"]["first"]["segs"], "doc": c["doc"], "seed": 12}
+    # integer literals written with an exponent, up to where a double no longer holds the power of ten exactly
+    big = [int(float("1e23")), int(float("2e23")), int(float("3e25")), 10 ** 22, 100, 1500, -20, int(float("1e300"))]
+    for v in big:
+        for w in (float(v), v, v + 1 if abs(v) < 2 ** 53 else v * 2, float(v) * 2, str(v), None, True):
+            for op in OPS:
+                for seed in (21, 22):
+                    yield {"segs": [["list", ["filter", ["op", op, ["self"], ["lit", v]]]]], "doc": [w, {"n": w}, [w]], "seed": seed}
+                    yield {"segs": [["list", ["filter", ["op", op, ["lit", v], ["self", ["sel", ["name", "n"]]]]]]], "doc": [w, {"n": w}, [w]], "seed": seed}
     # operands in which one container value occurs twice (the shared-parts route makes them one object): equal at the first
     # occurrence, different at the second
     rep = [[{"k": 1}, {"k": 1}], [{"k": 1}, {"k": 2}], [[1], [1]], [[1], [2]], {"x": [1], "y": [1]}, {"x": [1], "y": [2]}, [[], []], [[], [0]], [{}, {}], [{}, {"a": {}}]]
